@@ -267,7 +267,7 @@ def _one(task):
         w = numeric_witness(name, d)
         return (nm, 'fail', time.time() - t, 'the difference of the two routes is a non-zero expression' + (' | replay: ' + w['observed'] if w else ''),
                 w or {'replayed': False, 'signature': name}, fq)
-    except (TypeError, Undecided, NotImplementedError, AttributeError, ValueError, IndexError, KeyError, ArithmeticError) as ex:
+    except (TypeError, Undecided, NotImplementedError, AttributeError, ValueError, IndexError, KeyError, ArithmeticError, AssertionError) as ex:
         return (nm, 'undecided', time.time() - t, 'symbolic execution left the supported path: %s: %s' % (type(ex).__name__, str(ex)[:200]), None, fq)
 
 
